@@ -57,6 +57,7 @@ type Config struct {
 	Choices    []int32 // if non-nil: replay these choices (index into sorted runnable list); exhausted => 0
 	MaxSteps   int     // step cap (0 = default 5e6)
 	PoolBuggy  bool    // sync.Pool decisions made by the simulator (fresh / recycled dirty / dropped)
+	PoolMode   int     // 0 mixed, 1 never recycle (like a pool emptied by the GC), 2 always recycle the most recent object, never drop
 	MapShuffle bool    // map iteration order = seeded permutation of canonical order
 	Record     bool    // record the choice list in the report
 	EstSteps   int     // pct: estimated number of steps, for placing change points
